@@ -382,7 +382,10 @@ class DeduplicateDecorator(AsyncDecorator):
             task = self.fn.asynq(*args, **kwargs)
 
             def callback(task):
-                self.tasks.pop(cache_key, None)
+                # only this task's own entry: after dirty() the key may belong to a newer
+                # task that is still in flight
+                if self.tasks.get(cache_key) is task:
+                    del self.tasks[cache_key]
 
             self.tasks[cache_key] = task
             task.on_computed.subscribe(callback)
